@@ -462,6 +462,41 @@ def stream_boxform(ctx, boxes):
     common.correspond(ctx, 'boxform', uniq, impl, lambda c: {'op': 'domain.box_rows', 'lo': c['box']['lo'], 'hi': c['box']['hi']})
 
 
+def stream_near_twins(ctx, rng, N):
+    """posynomial plus a constant in one variable with TWO exponents that are close but distinct (relatively 5e-6 .. 5e-7 apart): the level-0
+    bound is the infimum in both forms (`ordAge_bound_eq_inf`), whatever the order of the two terms"""
+    for t in range(N):
+        d = F(rng.choice([5, 50]), 10 ** 7)
+        e1 = F(rng.choice([1, 2]))
+        rows = [[e1], [e1 + d], [F(-1)], [F(0)]]
+        cs = [F(rng.choice([2, 3])), F(rng.choice([1, 2])), F(rng.choice([1, 2])), F(rng.choice([0, 1]))]
+        if rng.random() < 0.5:
+            rows[0], rows[1] = rows[1], rows[0]
+            cs[0], cs[1] = cs[1], cs[0]
+        leaf = rm.sig_leaf(rows, cs)
+        fl = lambda x: sum(float(c_) * math.exp(float(r_[0]) * x) for r_, c_ in zip(rows, cs))     # noqa: E731
+        lo_, hi_ = -20.0, 20.0
+        for _ in range(200):                  # the function is convex: ternary search
+            m1, m2 = lo_ + (hi_ - lo_) / 3, hi_ - (hi_ - lo_) / 3
+            if fl(m1) < fl(m2):
+                hi_ = m2
+            else:
+                lo_ = m1
+        fmin = fl((lo_ + hi_) / 2)
+        case = {'stream': 'near-twins', 'leaf': leaf, 'min': fmin}
+        ctx.case(case, nontrivial=True)
+        ctx.count('stream:near-twins')
+        for form in ('primal', 'dual'):
+            s_, v_ = solve_bound(leaf, None, form=form)
+            if s_ != 'solved':
+                ctx.incon('near-twins: %s status %s' % (form, s_))
+                continue
+            if abs(v_ - fmin) > 1e-4 * max(1.0, abs(fmin)):
+                ctx.violation('exactness: the level-0 %s bound %.8g of a posynomial plus a constant with two exponents %s apart differs from its '
+                              'infimum %.8g' % (form, v_, frac_str(d), fmin), dict(case, form=form))
+                break
+
+
 def stream_monotone(ctx, rng, N):
     for _ in range(N):
         leaf = rm.gen_sig(rng, n=rng.randint(1, 2), m=rng.randint(3, 4))
@@ -517,6 +552,7 @@ def run(ctx):
                               {'stream': 'corpus', 'entry': e}, tags=tags)
     common.run_regressions(ctx, 'C06', recheck)
     stream_circuits(ctx, rng, 10 if quick else 80)
+    stream_near_twins(ctx, rng, 4 if quick else 30)
     boxes = []
     stream_boxes(ctx, rng, 40 if quick else 300, boxes)
     leaves = stream_invariance(ctx, rng, 20 if quick else 150)
@@ -579,6 +615,11 @@ def recheck(r):
                     r['rel'], 'feasible' if v_ > -math.inf else 'infeasible')
     elif k == 'box':
         stream_boxes(ctx, rng, 0, [], given=[(r['leaf'], r['box'])])
+    elif k == 'near-twins':
+        for form in ([r['form']] if 'form' in r else ['primal', 'dual']):
+            s_, v_ = solve_bound(r['leaf'], None, form=form)
+            if s_ == 'solved' and abs(v_ - r['min']) > 1e-4 * max(1.0, abs(r['min'])):
+                return 'exactness: the level-0 %s bound %.8g of a posynomial plus a constant with two close exponents differs from its infimum %.8g' % (form, v_, r['min'])
     elif k == 'invariance' and r.get('transform') == 'affine-library':
         return (lambda w: ('scaling: ' + w) if w else None)(affine_via_library(r['leaf'], F(r['a']), F(r['k']), r['want']))
     elif k == 'corpus':
